@@ -527,6 +527,17 @@ pub fn run(args: &[String], out: &mut Sink) {
                                 }
                                 Some(c) => out.fail(format!("{np} reopening crashes (exit {c}) after a crash (loss={nloss}) at event {k2} of the recovery: {desc}")),
                             }
+                            // the recovery of the interrupted recovery is a recovery too: its trace goes to the order monitor
+                            if std::path::Path::new(&format!("{rep_n}.rtrace")).exists() {
+                                let keep = format!("{root_out}/rtrace");
+                                let _ = std::fs::create_dir_all(&keep);
+                                let dst = format!("{keep}/c{case}_o{si}_k{k}_n{k2}_{}.txt", nloss.replace(':', "-"));
+                                if std::fs::rename(format!("{rep_n}.rtrace"), &dst).is_ok() || std::fs::copy(format!("{rep_n}.rtrace"), &dst).is_ok() {
+                                    out.line(format!("recovery {dst}"), "skip".into());
+                                    out.count("recovery_traces_nested");
+                                }
+                                let _ = std::fs::remove_file(format!("{rep_n}.rtrace"));
+                            }
                             let _ = std::fs::remove_dir_all(&dn);
                             cleanup(&dn);
                             k2 += 1;
@@ -653,7 +664,7 @@ pub fn run(args: &[String], out: &mut Sink) {
 
 fn cleanup(d: &str) {
     let _ = std::fs::remove_dir_all(d);
-    for ext in ["trace", "trace2", "child", "report"] {
+    for ext in ["trace", "trace2", "child", "report", "report.rtrace"] {
         let _ = std::fs::remove_file(format!("{d}.{ext}"));
     }
 }
